@@ -142,6 +142,17 @@ Definition g_F2 (fx : fixes) (k : case) : bool :=
   let c := loaded fx (k_file k) (k_cfg k) in
   guard_F2 c (k_err k) || xguard_F2 c (to_x (k_sc k) (k_err k)).
 
+(** the two halves of [g_F2], reported as separate findings: an override that is no status
+    (C12-F2) / a hand-built redirect error value whose code is no status (C12-F5) *)
+Definition g_F2o (fx : fixes) (k : case) : bool :=
+  let c := loaded fx (k_file k) (k_cfg k) in
+  guard_F2o_class c (spec_class (k_err k)) ||
+  existsb (guard_F2o_class c) (d_classes (demand_of (to_x (k_sc k) (k_err k)))).
+
+Definition g_F5 (k : case) : bool :=
+  guard_F5_class (spec_class (k_err k)) ||
+  existsb guard_F5_class (d_classes (demand_of (to_x (k_sc k) (k_err k)))).
+
 Definition g_F4 (fx : fixes) (k : case) : bool :=
   xguard_F4 fx (k_file k) (k_cfg k) [spec_class (k_err k)] ||
   xguard_F4 fx (k_file k) (k_cfg k) (d_classes (demand_of (to_x (k_sc k) (k_err k)))).
@@ -162,7 +173,7 @@ Definition check (fx : fixes) (k : case) : verdict :=
   let any := g_F1 fx k || g_F2 fx k || g_F4 fx k in
   {| v_corr := co;
      v_prop := prop k || (negb co && any && prop_w (waived fx k) k);
-     v_guards := guards [(1, g_F1 fx k); (2, g_F2 fx k); (4, g_F4 fx k)] |}.
+     v_guards := guards [(1, g_F1 fx k); (2, g_F2o fx k); (5, g_F5 k); (4, g_F4 fx k)] |}.
 
 (* constructors with short names for the generated case files *)
 Definition mkfx a b := {| fx1 := a; fx4 := b |}.
